@@ -208,6 +208,13 @@ func (ex *Exec) evalCallWithArgs2(st *State, call *ast.CallExpr, preArgs []*Val,
 	return ex.callFunc(st, fn, recv, args, call, sc, resT)
 }
 
+func posOf(call *ast.CallExpr) token.Pos {
+	if call == nil {
+		return token.NoPos
+	}
+	return call.Pos()
+}
+
 func exprString(e ast.Expr) string {
 	switch e := e.(type) {
 	case *ast.Ident:
@@ -307,7 +314,11 @@ func (ex *Exec) callFunc(st *State, fn *types.Func, recv *Val, args []*Val, call
 				}
 			}
 		}
+		rawArgs := args
 		args = conv
+		if vs, ok := ex.modelled(st, ref, fn, recv, rawArgs, posOf(call), sc, resT); ok {
+			return vs
+		}
 	}
 	pos := token.NoPos
 	if call != nil {
@@ -629,9 +640,19 @@ func (ex *Exec) applyContract(st *State, c *Contract, fn *types.Func, recv *Val,
 		results = ex.freshResults(fn, nil, fn.Name())
 	}
 	bindResults(sc, fn, results)
+	// ghost effects of the callee
+	for _, cl := range c.Clauses {
+		if cl.Kind != "ghostupdate" || cl.Expr == nil {
+			continue
+		}
+		for _, item := range splitTopLevel(cl.LetName, ',') {
+			ex.curClause = c.Func + ": ghostupdate " + item
+			ex.havocSpecLval(st, strings.TrimSpace(item), sc)
+		}
+	}
 	// re-evaluate lets that are not under old() in the post state? lets are entry-state values.
 	for _, cl := range c.Clauses {
-		if cl.Kind != "ensures" || cl.Expr == nil || cl.Finding != "" {
+		if (cl.Kind != "ensures" && cl.Kind != "ghostupdate") || cl.Expr == nil || cl.Finding != "" {
 			continue
 		}
 		ex.curClause = c.Func + ": ensures " + cl.Text
@@ -949,6 +970,10 @@ func (ex *Exec) specForm(st *State, name string, call *ast.CallExpr, sc *SpecCtx
 		}
 		r, _ := ex.typeAssert(st, v, t)
 		return one(r)
+	case "isFresh":
+		// the object was allocated during the call (it did not exist in the caller's entry state)
+		v := ex.eval(st, call.Args[0], sc)
+		return one(ex.boolVal("(> " + v.S + " " + ex.eng.alloc0() + ")"))
 	case "clockNow":
 		c := ex.eval(st, call.Args[0], sc)
 		return one(ex.clockNow(st, c, nil, sc))
